@@ -14,7 +14,8 @@ EXPLANATION = (
     "whose Ok exit is dominated by the sender-identity check, the claimed-receiver edge and the false edge of `sender_capacity == 0`, and on which both "
     "credit counters are decremented by one; capacity exhaustion closes the sender end only; (R3) add_capacity uses checked_add and its overflow edge "
     "reaches remove_channel_end(Receiver) and nothing else; (R4) peer notifications are dominated by close()->Some / claim->Ok and the channel is removed "
-    "(gauge decremented) exactly on the remove edge. NOT decided (the larger part of the property): credit arithmetic over unbounded histories, in-order "
+    "(gauge decremented) exactly on the remove edge; (R5) on the client, every site that takes a capacity grant out of the sender's queue adds it to the sender's credit before "
+    "polling again. NOT decided (the larger part of the property): credit arithmetic over unbounded histories, in-order "
     "exactly-once delivery, client-side replenishment."
 )
 
@@ -223,6 +224,9 @@ def run(rep):
     rep.check(okr, "C05-R3", hb.def_, "grant-always-forwarded", "credit that Channel::add_capacity decided to pass on must reach the sender on every path, unless the sender's connection is gone (otherwise the sender starves with credit granted)", detail={})
     rep.check(ok, "C05-R3", hb.def_, "grant-forwarded-as-computed", "the credit announced to the sender must be the amount and the connection computed by Channel::add_capacity", detail={"sites": len(fwd)})
 
+    if not rep.matrix:
+        r5_client_credit(rep)
+
     # ---- R4 notifications / removal -----------------------------------------------------------------------
     re_ = M["remove_channel_end"]
     cs = [s for s in broker.sends(re_) if s.msg_type == "ChannelEndClosed"]
@@ -245,3 +249,29 @@ def run(rep):
     ok = len(rce) == 1 and bool(broker.has_guard(ch, rce[0].bb, r"^True=PartialEq::eq\(Channel::check_close\(.*\)\.0, CloseChannelEndResult::Ok\(\)\)$")) \
         and bool(broker.has_guard(ch, rce[0].bb, r"^Continue=discr\(ConnectionState::send\(self\.conns\[id\]"))
     rep.check(ok, "C05-R4", ch.def_, "close-effect-only-when-ok", "a close request has an effect only when check_close answered Ok, after the reply was sent", detail={"sites": len(rce), "guards": ch.guard_strings(rce[0].bb) if rce else None})
+
+
+def r5_client_credit(rep):
+    """client side of the credit protocol (aldrin/src/low_level/channel/established.rs): whoever takes a grant out of the
+    sender's capacity_added queue credits it to self.capacity before polling again — a grant that is read and dropped is
+    credit the broker believes the sender has, and the sender stalls although it never exceeded its capacity"""
+    cprog = mir.Program(engine.ensure_facts(engine.config_for("C05")), crates=["aldrin"])
+    n = 0
+    for d, b in sorted(cprog.bodies.items()):
+        if "channel::established::Sender" not in d:
+            continue
+        pn = [c for c in b.calls if c.name == "poll_next" and any(x.endswith("self.capacity_added") for x in b.describe(c.args[0]))]
+        if not pn:
+            continue
+        got = b.edges_matching([r"^Some=discr\(Stream::poll_next\((upvar:)?self\.capacity_added, cx\)\.0\)$"])
+        stores = set()
+        for i in sorted(b.live_blocks()):
+            for st in b.blocks[i]["s"]:
+                if st["d"][-1:] == [".capacity"] and st["r"]["k"] == "use" and any(re.match(r"^AddWithOverflow\((upvar:)?self\.capacity, Stream::poll_next\((upvar:)?self\.capacity_added, cx\)\.0\.0\)", x) for x in b.describe(st["r"]["o"][0])):
+                    stores.add(i)
+        for (u, v) in sorted(got):
+            n += 1
+            r_ = b.reachable(v, without_nodes=stores)
+            ok = bool(stores) and not (set(c.bb for c in pn) & r_) and not (set(b.exits()) & r_)
+            rep.check(ok, "C05-R5", d, "grant-credited", "a capacity grant taken out of the queue must be added to self.capacity before the queue is polled again or the function returns; a dropped grant makes a compliant sender stall for ever", line=b.span, detail={"stores": len(stores)})
+    rep.floor("C05-R5", "sites that take grants out of the sender's queue", n, 2)
